@@ -128,14 +128,14 @@ pub fn search_ops(fast: bool, seed: u64, budget: u64) -> i32 {
     let mut round = 0u64;
     loop {
         // windows biased to small `a` (sum ≡ 0 mod 65521) and to high sums
-        let n = match round % 4 { 0 => 300, 1 => 1 + rng.below(64) as usize, 2 => 512 + rng.below(8192) as usize, _ => 1 + rng.below(2048) as usize };
+        let n = match round % 4 { 0 => if round % 8 == 0 { 65536 } else { 300 }, 1 => 1 + rng.below(64) as usize, 2 => 512 + rng.below(8192) as usize, _ => 1 + rng.below(2048) as usize };
         let mut init: Vec<u8> = match round % 3 {
             0 => { let mut v = vec![241u8]; v.extend(std::iter::repeat(255u8).take(256)); v.extend(std::iter::repeat(0u8).take(n.saturating_sub(257))); v }
             1 => (0..n).map(|_| rng.byte_biased()).collect(),
-            _ => vec![0u8; n],
+            _ => if round % 2 == 0 { vec![0u8; n] } else { vec![0xFFu8; n] },
         };
         if init.is_empty() { init.push(1); }
-        let nops = if round % 5 == 4 { 5200 } else { 1 + rng.below(40) as usize };
+        let nops = if round % 5 == 4 { 5200 } else if n >= 60000 { 400 } else { 1 + rng.below(40) as usize };
         let ops: Vec<(u8, u8)> = (0..nops).map(|_| (if rng.below(8) == 0 { b'p' } else { b'r' }, rng.byte_biased())).collect();
         if let Some(what) = run_program(fast, &init, &ops) {
             // shrink ops to the failing prefix
